@@ -131,6 +131,21 @@ Theorem C03_methods_need_macpayload : forall reg key p,
 Proof. exact methods_need_macpayload. Qed.
 Print Assumptions C03_methods_need_macpayload.
 
+(* C03-2 (repaired): the decode step for the FRMPayload is refused unless FPort = 0 *)
+Theorem C03_decode_frm_refuses_application_port : forall reg p m,
+  pl p = PLMac m -> frm m <> [] -> fport m <> Some 0 -> phy_decode_frm reg p = Err.
+Proof. exact phy_decode_frm_refuses_application_port. Qed.
+Print Assumptions C03_decode_frm_refuses_application_port.
+
+Theorem C03_decode_frm_ok : forall reg p q,
+  phy_decode_frm reg p = Ok q ->
+  exists m, pl p = PLMac m /\
+    ((frm m = [] /\ q = p) \/
+     (fport m = Some 0 /\ exists b cs, frm m = [IData b] /\ decode_stream reg (is_uplink (mtype p)) b = Ok cs /\
+                                        q = with_frm p m cs)).
+Proof. exact phy_decode_frm_ok. Qed.
+Print Assumptions C03_decode_frm_ok.
+
 (* non-vacuity: 40 bytes (3 keystream blocks, the third partial), FCnt above 2^16, downlink *)
 Definition ex_key : list N := [1; 2; 3; 4; 5; 6; 7; 8; 9; 10; 11; 12; 13; 14; 15; 16].
 Definition ex_data : list N := map N.of_nat (seq 0 40).
